@@ -236,6 +236,7 @@ Sort(from, to)    == Void("Sort", from, to, 0, 0, <<>>, SortRange(s, from, to), 
 
 (* whole-queue operations; src = contents of the other Queue before the call *)
 SwapContents(src) == Void("SwapContents", 0, 0, 0, 0, src, src, s)
+SwapContentsRev(src) == Void("SwapContentsRev", 0, 0, 0, 0, src, src, s)     \* the same exchange called on the other Queue: other.SwapContents(this one)
 CopyFrom(src)     == Ok("CopyFrom", 0, 0, 0, 0, src, src, src)
 Assign(src)       == Void("Assign", 0, 0, 0, 0, src, src, src)
 CopyCtor          == Void("CopyCtor", 0, 0, 0, 0, <<>>, s, s)       \* the Queue is replaced by a copy-constructed one; o = the original
@@ -321,7 +322,7 @@ GenArrange == Ready /\
     \/ \E i, j \in Idx : i <= j /\ Swap(i, j)
     \/ \E r \in Ranges : Reverse(r[1], r[2]) \/ Sort(r[1], r[2])
 GenWhole == Ready /\
-    \/ \E src \in Srcs : SwapContents(src) \/ CopyFrom(src) \/ Assign(src) \/ MoveAssign(src) \/ Plunder(src) \/ MoveAway(src)
+    \/ \E src \in Srcs : SwapContents(src) \/ SwapContentsRev(src) \/ CopyFrom(src) \/ Assign(src) \/ MoveAssign(src) \/ Plunder(src) \/ MoveAway(src)
     \/ CopyCtor \/ AssignSelf \/ CopyFromSelf \/ MoveCtor
     \/ \E src \in Srcs, x \in {<<0, NoLimit>>, <<2, 1>>, <<0, 0>>} : Adopt(src, Len(src) + x[1], IF x[2] = 0 THEN NoLimit ELSE x[2])
 
@@ -373,7 +374,7 @@ BagLaw == Stepped =>
     /\ (L.op \in {"RemoveFirst", "RemoveLast"} /\ L.st = "ok" => Bag(L.pre) = [Bag(L.q) EXCEPT ![L.v] = @ + 1])
     /\ (L.op = "RemoveAll" => Bag(L.q) = [Bag(L.pre) EXCEPT ![L.v] = 0] /\ L.lo = Count(L.pre, L.v))
     /\ (L.op = "RemoveDup" => ItemsOf(L.q) = ItemsOf(L.pre) /\ \A x \in ItemsOf(L.q) : Count(L.q, x) = 1)
-    /\ (L.op = "SwapContents" => L.q = L.src /\ L.o = L.pre)
+    /\ (L.op \in {"SwapContents", "SwapContentsRev"} => L.q = L.src /\ L.o = L.pre)
     /\ (L.op \in {"MoveAssign", "Plunder"} => L.q = L.src /\ (L.op = "Plunder" => L.o = <<>>))
     /\ (L.op = "MoveAway" => L.o = L.pre)
     /\ (L.op \in {"CopyFrom", "Assign"} => L.q = L.src /\ L.o = L.src)
